@@ -17,14 +17,14 @@ RULE = ("full product over pairs of operations (ids x paths x tag layout) and pa
         "collision alphabets; deviation-bounded builder (d<=2 quick, d<=3 thorough) over 3 operations / 3 schemas with broken "
         "units, unsupported or broken responses and request media types, dependants of broken schemas at distance 1 and 2; "
         "oracle = census: every operation is served by its own generated module (found by calling it) or named by a diagnostic, "
-        "every object/enum schema has its own class or is named by a diagnostic; non-trivial = generated and census taken; every ordered selection of 1-3 request media types in one body; path items with shared (good / 5 broken) parameters x 4 methods each inheriting / re-declaring / absent; every builder document also under generate_all_tags; typed responses next to content-less statuses, request bodies on all eight methods (inline / by reference), broken-root dependant chains no operation mentions x related names x edge kinds; the census matches whole name tokens")
+        "every object/enum schema has its own class or is named by a diagnostic; non-trivial = generated and census taken; every ordered selection of 1-3 request media types in one body; path items with shared (good / 5 broken) parameters x 4 methods each inheriting / re-declaring / absent; every builder document also under generate_all_tags; operations with an explicit empty tag list or with two tags; typed responses next to content-less statuses, request bodies on all eight methods (inline / by reference), broken-root dependant chains no operation mentions x related names x edge kinds; the census matches whole name tokens")
 FLOOR = 0.5
 ASSUMPTIONS = ["a diagnostic 'names' an item when the method and path (or the schema name) occur in its header+detail+data",
                "which class belongs to a component is read from the generator's own claim and then verified on the tree"]
 
 OPIDS = ["getThing", "get_thing", "get-thing", "GetThing", "other", None]
 PATHPAIRS = [("/a", "/b"), ("/a_b", "/a/b"), ("/a/{id}", "/a/{id}/x"), ("/a-b", "/a_b")]
-TAGS = ["same", "different", "none"]
+TAGS = ["same", "different", "none", "empty-list", "empty-list+tag", "two-tags"]
 SNAMES = ["AB", "Ab", "a_b", "A B", "Foo", "foo"]
 SKINDS = {
     "object": lambda: {"type": "object", "properties": {"v": {"type": "integer"}}},
@@ -41,7 +41,7 @@ def _op(op_id, tag, path, responses=None, body=None, params=None):
     if op_id is not None:
         op["operationId"] = op_id
     if tag is not None:
-        op["tags"] = [tag]
+        op["tags"] = list(tag) if isinstance(tag, (list, tuple)) else [tag]       # () is an explicit, empty tag list
     ps = [{"name": m, "in": "path", "required": True, "schema": {"type": "string"}} for m in re.findall(r"\{(\w+)\}", path)]
     if params:
         ps += params
@@ -56,7 +56,7 @@ def _op_pairs():
     for ia, ib in itertools.product(OPIDS, OPIDS):
         for pa, pb in PATHPAIRS:
             for tags in TAGS:
-                ta, tb = {"same": ("t", "t"), "different": ("t", "u"), "none": (None, None)}[tags]
+                ta, tb = {"same": ("t", "t"), "different": ("t", "u"), "none": (None, None), "empty-list": ((), ()), "empty-list+tag": ((), "t"), "two-tags": (("t", "u"), ("u", "t"))}[tags]
                 paths = {pa: {"get": _op(ia, ta, pa)}, pb: {"get": _op(ib, tb, pb)}}
                 doc = gen.base_doc(None, paths=paths)
                 yield {"labels": [f"op0.id={ia}", f"op1.id={ib}", f"paths={pa}|{pb}", f"tags={tags}"],
@@ -136,7 +136,7 @@ def _build(ch):
         link(names[1], names[0], dep[3:].split("->")[0])
     # operations
     paths = {}
-    tagging = ch.pick("tags", ["own-tag-each", "all-untagged", "one-shared-tag"])
+    tagging = ch.pick("tags", ["own-tag-each", "all-untagged", "one-shared-tag", "empty-tag-lists", "two-tags-each"])
     for i in range(3):
         present = ch.pick(f"op{i}", ["plain", "absent"] if i == 2 else ["plain"])
         if present == "absent":
@@ -194,7 +194,7 @@ def _build(ch):
             params = [{"name": "q", "in": "query", "schema": {"type": "string"}}, {"name": "q", "in": "query", "schema": {"type": "integer"}}]
         elif param == "no-schema":
             params = [{"name": "q", "in": "query"}]
-        tag = {"own-tag-each": f"tag{i}", "all-untagged": None, "one-shared-tag": "shared"}[tagging]
+        tag = {"own-tag-each": f"tag{i}", "all-untagged": None, "one-shared-tag": "shared", "empty-tag-lists": (), "two-tags-each": (f"tag{i}", "shared")}[tagging]
         op = _op(f"op{i}Id", tag, path if param != "optional-path" else f"/op{i}", responses=r, body=b, params=params)
         if param == "optional-path":
             op["parameters"] = [{"name": "pp", "in": "path", "required": False, "schema": {"type": "string"}}]
